@@ -674,6 +674,23 @@ func c01One(e *env, c *xcase, sd, st specResult) {
 				return soyhtml.EvalExpr(node)
 			}()
 			e.res.Histogram["evalexpr"]++
+			// the tree-walker model on the parsed node (op eval_expr) against soyhtml.EvalExpr
+			if mr := e.m.Call("eval_expr", "#300", nodeSexp(node, newIDTable())); len(mr) > 0 && !isPanicErr(verr) {
+				switch mr[0] {
+				case "ok":
+					mv := canonIDs(strings.Join(mr[1:], " "), 1)
+					if verr != nil || canonIDs(valueSexp(v, newIDTable()), 1) != mv {
+						c01Fail(e, hx.Violation{Kind: "mismatch", What: "tree-walker model (eval_expr) and soyhtml.EvalExpr disagree", Case: rc(), Expected: mv, Observed: fmt.Sprint(valueSexp(v, newIDTable()), " ", firstLine(errStr(verr)))}, "")
+					}
+				case "err":
+					if verr == nil {
+						c01Fail(e, hx.Violation{Kind: "mismatch", What: "tree-walker model (eval_expr) reports an error, soyhtml.EvalExpr returns a value", Case: rc(), Observed: valueSexp(v, newIDTable())}, "")
+					}
+				case "outofmodel":
+				default:
+					c01Fail(e, hx.Violation{Kind: "mismatch", What: "tree-walker model (eval_expr) outcome " + mr[0], Case: rc()}, "")
+				}
+			}
 			switch {
 			case isPanicErr(verr) && st.class == "err":
 				// EvalExpr's error path dereferences a nil template (ledger I7, property C06): an error all the same
